@@ -272,6 +272,31 @@ def fit_quiet(est, *a, **k):
     return est.fit(*a, **k)
 
 
+def prepare_tuples_via(rng, est, X, idx, *rest, **kw):
+  """choose one of the documented ways of supplying the tuples X[idx] to `est`: formed, or as indices into a
+  preprocessor array - set on this estimator for the first time, or REPLACING another array the estimator was fitted
+  through before (that earlier fit is made here).  Returns (first argument for fit, how)."""
+  how = str(rng.choice(['formed', 'formed', 'formed', 'indices', 'indices_after_other']))
+  cp = lambda r: (np.array(r).copy() if isinstance(r, np.ndarray) else r)
+  if how == 'formed':
+    return X[idx].copy(), how
+  if how == 'indices_after_other':
+    est.set_params(preprocessor=(X[::-1] * 1.5 + 0.25))
+    try:
+      fit_quiet(est, idx.copy(), *[cp(r) for r in rest], **kw)
+    except Exception:
+      pass
+  est.set_params(preprocessor=X.copy())
+  return idx.copy(), how
+
+
+def fit_tuples_via(rng, est, X, idx, *rest, **kw):
+  """prepare_tuples_via, then the fit.  Returns (est, how)."""
+  cp = lambda r: (np.array(r).copy() if isinstance(r, np.ndarray) else r)
+  arg, how = prepare_tuples_via(rng, est, X, idx, *rest, **kw)
+  return est.fit(arg, *[cp(r) for r in rest], **kw), how
+
+
 def fitted(rng, name, d=None, opts=None, train=None, **kw):
   """Return (estimator, training, options) fitted on a generated well-formed input.
   SDML needs balance_param small enough for its graphical-lasso input to be positive definite
